@@ -3,8 +3,8 @@
    and the lend rate never exceeds the borrow rate.
    Property theorems only; each is closed by a lemma proved in Proofs/.  Dec values are their
    10^18-scaled integers ("ulp" = 10^-18); floats are integers in units of 2^-1074.          *)
-From Comdex Require Import Lib.Base Lib.DecArith Lib.F64 Model.Accrual Model.AccrualFast Model.Rates
-  Proofs.AccrualProofs Proofs.AccrualFastProofs Proofs.RatesProofs.
+From Comdex Require Import Lib.Base Lib.DecArith Lib.F64 Model.Accrual Model.AccrualFast Model.Pow Model.Rates
+  Proofs.AccrualProofs Proofs.AccrualFastProofs Proofs.PowProofs Proofs.RatesProofs.
 
 (* ============ (i) index accrual: CalculateLendReward / CalculateBorrowInterest ============ *)
 (* how the three lend functions reach the common step: negative elapsed time is an error, a
@@ -262,15 +262,15 @@ Example c18_rate_uopt_one_rejected :
 Proof. vm_compute. repeat split. Qed.
 
 (* ============ (iii) compound accrual through float64: CalculationOfRewards ============ *)
-(* math.Pow is the variable [pow]; H1-H3 are explicit premises.  They are assumptions about Go's
-   math.Pow on amd64, TESTED by the harness on every evaluated point and on neighbouring pairs,
-   not proved.  Everything downstream (Dec->float conversion, f-1, *amount, 'f'-18 formatting) is
-   the exact round-to-nearest-even model of Lib/F64.v and is proved. *)
-Definition PowH1 (pow : Z -> Z -> Z) := forall x y, F_ONE <= x -> 0 <= y -> F_ONE <= pow x y.
-Definition PowH2 (pow : Z -> Z -> Z) := forall x, pow x 0 = F_ONE.
-Definition PowH3 (pow : Z -> Z -> Z) :=
-  forall x x' y y', F_ONE <= x -> x <= x' -> 0 <= y -> y <= y' -> pow x y <= pow x' y'.
-
+(* math.Pow is [go_pow core]: its two leading special cases (y == 0 || x == 1 -> 1, y == 1 -> x,
+   src/math/pow.go) are modelled exactly, the rest is the arbitrary function [core].
+   What is ASSUMED about math.Pow, as an explicit premise, is only [PowMonoBox]: monotone in each
+   argument on the operand box x in [1, 11], y in [0, 100] (rates in [0, 10], at most 100
+   years).  It is an assumption about Go's math.Pow on amd64, TESTED by the harness on
+   neighbouring observations (a failure is reported as a broken correspondence), not proved.
+   "pow x y >= 1" and "pow x 0 = 1" are no longer assumed: the first is derived, the second is
+   the modelled special case.  Everything downstream (Dec->float conversion, f-1, *amount,
+   'f'-18 formatting) is the exact round-to-nearest-even model of Lib/F64.v and is proved. *)
 Theorem c18_cmp_spec : forall pow now btime amt lsr r,
   calculation_of_rewards pow now btime amt lsr = Ok r ->
   0 <= now - btime /\ r = cmp_new pow amt lsr (now - btime).
@@ -285,21 +285,42 @@ Theorem c18_cmp_fast_model : forall pow now btime amt lsr secs,
 Proof. intros. split; [apply calculation_of_rewards_fast_eq|]. split; [apply cmp_xf_eq|apply cmp_yf_eq]. Qed.
 Print Assumptions c18_cmp_fast_model.
 
-Theorem c18_cmp_nonneg : forall pow, PowH1 pow -> forall amt lsr secs,
-  0 <= amt -> 0 <= lsr -> 0 <= secs -> 0 <= cmp_new pow amt lsr secs.
-Proof. intros pow H1. exact (cmp_nonneg pow H1). Qed.
-Print Assumptions c18_cmp_nonneg.
+Theorem c18_pow_special_cases : forall core x y,
+  go_pow core x 0 = F_ONE /\ go_pow core F_ONE y = F_ONE /\ go_pow core x F_ONE = x.
+Proof. intros. split; [apply go_pow_zero|]. split; [apply go_pow_one_base|apply go_pow_one_exp]. Qed.
+Print Assumptions c18_pow_special_cases.
 
-Theorem c18_cmp_zero_time : forall pow, PowH2 pow -> forall amt lsr, cmp_new pow amt lsr 0 = 0.
-Proof. intros pow H2. exact (cmp_zero_time pow H2). Qed.
+(* zero over zero time: no hypothesis on math.Pow *)
+Theorem c18_cmp_zero_time : forall core amt lsr, cmp_new (go_pow core) amt lsr 0 = 0.
+Proof. exact cmp_zero_time_go. Qed.
 Print Assumptions c18_cmp_zero_time.
 
-Theorem c18_cmp_monotone : forall pow, PowH1 pow -> PowH3 pow ->
+(* zero at rate zero, whatever the elapsed time: no hypothesis on math.Pow *)
+Theorem c18_cmp_zero_rate : forall core amt secs, cmp_new (go_pow core) amt 0 secs = 0.
+Proof. exact cmp_zero_rate_go. Qed.
+Print Assumptions c18_cmp_zero_rate.
+
+Theorem c18_cmp_nonneg : forall core, PowMonoBox (go_pow core) -> forall amt lsr secs,
+  0 <= amt -> 0 <= lsr -> lsr <= LSR_MAX -> 0 <= secs -> secs <= SECS_MAX ->
+  0 <= cmp_new (go_pow core) amt lsr secs.
+Proof. exact cmp_nonneg_box. Qed.
+Print Assumptions c18_cmp_nonneg.
+
+Theorem c18_cmp_monotone : forall core, PowMonoBox (go_pow core) ->
   forall amt amt' lsr lsr' secs secs',
-  0 <= amt -> amt <= amt' -> 0 <= lsr -> lsr <= lsr' -> 0 <= secs -> secs <= secs' ->
-  cmp_new pow amt lsr secs <= cmp_new pow amt' lsr' secs'.
-Proof. intros pow H1 H3. exact (cmp_monotone pow H1 H3). Qed.
+  0 <= amt -> amt <= amt' -> 0 <= lsr -> lsr <= lsr' -> lsr' <= LSR_MAX ->
+  0 <= secs -> secs <= secs' -> secs' <= SECS_MAX ->
+  cmp_new (go_pow core) amt lsr secs <= cmp_new (go_pow core) amt' lsr' secs'.
+Proof. exact cmp_monotone_box. Qed.
 Print Assumptions c18_cmp_monotone.
+
+(* in the principal alone: for ANY pow whose value at the one operand point is >= 1 (on the box
+   that follows from PowMonoBox: PowProofs.pow_ge_one_box) *)
+Theorem c18_cmp_monotone_principal : forall pow amt amt' lsr secs,
+  F_ONE <= pow (cmp_x lsr) (cmp_y secs) -> 0 <= amt -> amt <= amt' ->
+  cmp_new pow amt lsr secs <= cmp_new pow amt' lsr secs.
+Proof. exact cmp_monotone_principal. Qed.
+Print Assumptions c18_cmp_monotone_principal.
 
 (* PARTIAL: the exact core only.  With H4 in the tested form  pow x y1 * pow x y2 <=
    (1 + en/2^53) * pow x y12  the accrual factors satisfy (f1-1) + (f2-1) <= (f12-1) + en/2^53*f12.
@@ -335,15 +356,18 @@ Example c18_carry_nonvacuous :
   carry_run 0 [600000000000000000; 700000000000000000; 2900000000000000000] = (4, 200000000000000000).
 Proof. vm_compute. reflexivity. Qed.
 
-(* a function satisfying H1-H3 exists and gives a non-zero accrual (so the premises are
-   satisfiable; whether math.Pow satisfies them is what the harness tests) *)
+(* a function satisfying the premise exists and gives a non-zero accrual (so the premise is
+   satisfiable; whether math.Pow satisfies it is what the harness tests) *)
 Example c18_cmp_nonvacuous :
-  let pw := fun x y : Z => if y =? 0 then F_ONE else x in
-  PowH1 pw /\ PowH2 pw /\ PowH3 pw /\ cmp_new pw 1000000 100000000000000000 31557600 = 100000000000000087311491.
+  let core := fun x y : Z => x in
+  PowMonoBox (go_pow core) /\ LSR_MAX = 10 * P18 /\ SECS_MAX = 3155760000 /\
+  cmp_new (go_pow core) 1000000 100000000000000000 31557600 = 100000000000000087311491.
 Proof.
   cbv zeta. split; [|split; [|split]].
-  - intros x y Hx Hy. destruct (y =? 0); lia.
-  - intros x. reflexivity.
-  - intros x x' y y' Hx Hxx Hy Hyy. destruct (Z.eqb_spec y 0); destruct (Z.eqb_spec y' 0); lia.
+  - intros x x' y y' Hx Hxx _ Hy Hyy _. unfold go_pow. pose proof F_ONE_pos.
+    destruct (Z.eqb_spec y 0); destruct (Z.eqb_spec y' 0); destruct (Z.eqb_spec x F_ONE); destruct (Z.eqb_spec x' F_ONE);
+      destruct (Z.eqb_spec y F_ONE); destruct (Z.eqb_spec y' F_ONE); cbn [orb]; lia.
+  - reflexivity.
+  - reflexivity.
   - vm_compute. reflexivity.
 Qed.
